@@ -20,9 +20,12 @@ func init() {
 	fw.Register(&fw.Prop{
 		ID:                  "C10",
 		DeadlockIsViolation: true,
-		ColdProbes:          64,                         // cheap generator: many cold-start probes                       // the calls of this property are synchronous functions of their inputs: a call blocked for good inside the library is a violation
-		Builds:              []string{"default", "386"}, // the 386 build runs a quarter of the random classes on a 32-bit target
-		Parallel:            4,                          // cases are judged on 4 goroutines per shard: the library functions are stateless, shared state inside them shows up as wrong verdicts
+		ColdProbes:          64,                                 // cheap generator: many cold-start probes                       // the calls of this property are synchronous functions of their inputs: a call blocked for good inside the library is a violation
+		Builds:              []string{"default", "386", "race"}, // the 386 build runs a quarter of the random classes on a 32-bit target
+		// race build: only the classes in which several goroutines are inside the library at once, under the race detector
+		RaceClasses: []string{"parse", "roundtrip"},
+		RaceSample:  50,
+		Parallel:    4, // cases are judged on 4 goroutines per shard: the library functions are stateless, shared state inside them shows up as wrong verdicts
 		Rule: "strings from a grammar-aware generator (number pool with leading zeros, 2^31 boundaries, huge values, prefixed forms; markers; separators) plus single-character mutations and random strings over {0-9 m M / H h ' space + - x _ . bytes>=0x80}; every non-ASCII rune of the Unicode categories Nd, No and Nl in a digit position of six templates, and generated strings in which one or all characters are replaced by a Unicode look-alike (other-script digits; fullwidth, Greek, Cyrillic m M H h; fullwidth and fraction slashes; primes and typographic apostrophes); paths of length 0..20 over boundary and random indices. " +
 			"Non-trivial: a string with a multi-digit component that has a leading zero, a component whose value lies in [2^31-2, 2^31+1], or a malformed separator/prefix; a path with at least one index.",
 		Assumptions: []string{"math/big decimal parsing", "the recogniser in harness/prop/c10 (self-tested on literals)"},
